@@ -7,7 +7,7 @@ import vlib
 PID = "C09"
 
 CLAIM = dict(
-    text="Machine-checked Coq theorems (18, no axioms) over an executable model of TypeAggregator (aggregator.rs: aggregate, "
+    text="Machine-checked Coq theorems (17, no axioms) over an executable model of TypeAggregator (aggregator.rs: aggregate, "
          "merge_*, remap_* with the remap table and the interface table, used types, owner imports, canonical-name "
          "bookkeeping) on top of the C07 checker model: for histories without owned resources every contributed name has "
          "ONE canonical name per semver track - the highest contributed version, equal to the executable specification "
@@ -17,13 +17,14 @@ CLAIM = dict(
          "(merged <: required in the declarative relation), a merge step yields the first-seen union of the export names, "
          "re-aggregation changes nothing observable, a conflict makes the history fail, and two successful orders give the "
          "same trees up to export order. The general statements are refuted by vm_compute witnesses that are replayed on "
-         "the real aggregator and SubtypeChecker on every run (nested instances, component imports, owned resources, one "
-         "interface under two import names, alias-vs-primitive panic). The model is tied to the code by a correspondence "
+         "the real aggregator and SubtypeChecker on every run (component imports, owned resources, one interface under two "
+         "import names). The model is tied to the code by a correspondence "
          "over multisets of 2-5 contributors, each built in its own Types collection, under ALL permutations of the "
          "contributor order; the specification predicates are evaluated on the implementation's own observations.",
     design_ref="DESIGN.md §5 C09, Appendix A.5, Appendix B",
-    note="Five confirmed defects of the real aggregator are reported as known findings (see PROPOSED_KNOWN; repairs for two "
-         "of them in hooks/fix-c09-*.patch). Not proved: 'failure only on conflict' and order independence of SUCCESS even "
+    note="Five defects of the real aggregator were found; two are repaired in the repository (commits 874f221, 0bf540d; the "
+         "model follows the repaired code and their witnesses are regression cases), three remain known findings (see "
+         "PROPOSED_KNOWN). Not proved: 'failure only on conflict' and order independence of SUCCESS even "
          "for flat requirements (needs completeness of the checker at the given fuel and panic-freedom of the copy); `use`d "
          "types and resources are covered by the model, the correspondence and the executable specification only. "
          "Trusted: Coq kernel; extraction; OCaml driver; Rust harness; the hand-written models Types.v/Checker.v/"
@@ -32,30 +33,18 @@ CLAIM = dict(
               "monotonicity of accepting checker verdicts) + extracted-model correspondence under all permutations + "
               "executable specification evaluated on implementation observations")
 
-# Entries proposed to the main session for /verif/known-findings.json; consulted locally so that the check exits 0
-# on the unchanged tree while still printing the KNOWN-FINDING lines.  Signatures are computed by `signatures()`.
+# Findings of this check.  Recorded in /verif/known-findings.json by the main session: `nested-instance-not-united` and
+# `remapped-defined-onto-primitive-panic` as "fixed" (repository commits 0bf540d, 874f221: they suppress nothing, their
+# witnesses are regression cases in corpus/C09/cases.txt), the three below as "known".  The local copy keeps the check
+# self-contained (signature, witness); an entry marked "fixed" in known-findings.json is dropped at run time.
+# Signatures are computed by `signatures()`.
 PROPOSED_KNOWN = [
-    dict(property="C09", id="nested-instance-not-united", status="known",
-         signature="merge_interface: an export that is an instance in both the merged interface and the contributor, with "
-                   "different export sets / members, is resolved by a subtype check that keeps the SUPERTYPE (or fails) "
-                   "instead of merging recursively",
-         witness="agg\t2\tF 0 0 - ; I - 0 1 a f:0 ; I - 0 1 n i:0\tF 0 0 - ; I - 0 2 a f:0 b f:0 ; I - 0 1 n i:0\t2\tfoo 0 i:1\tfoo 1 i:1",
-         text="nested instance requirements are not merged by union: foo:{n:{a}} + foo:{n:{a,b}} aggregates to foo:{n:{a}} "
-              "(SubtypeChecker rejects merged <: second contributor); foo:{n:{a}} + foo:{n:{b}} fails although compatible; "
-              "with a third contributor success depends on the order"),
     dict(property="C09", id="component-imports-united", status="known",
          signature="merge_world: imports of two component requirements are merged by UNION (a new import of the contributor "
                    "is inserted), which yields a supertype, not a subtype, of the contributors",
          witness="agg\t3\tF 0 0 - ; W - 0 1 i f:0 0\tW - 0 0 0\tF 0 1 x p0 - ; W - 0 1 j f:0 0\t3\tfoo 0 c:0\tfoo 1 c:0\tfoo 2 c:0",
          text="component-typed requirements with different imports merge to a component type that no contributor's "
               "requirement is satisfied by (SubtypeChecker rejects merged <: every contributor)"),
-    dict(property="C09", id="remapped-defined-onto-primitive-panic", status="known",
-         signature="merge_interface records source_kind.ty() -> target_kind.ty() in `remapped` after a successful subtype check "
-                   "even when the source is a Defined (alias) value type and the target is not; a later remap_defined_type of "
-                   "that id panics 'expected a defined type got ..'",
-         witness="agg\t2\tI - 0 1 t tv:p0\tD alias p0 ; F 0 1 x d0 - ; I - 0 2 t tv:d0 g f:0\t2\tfoo 0 i:0\tfoo 1 i:0",
-         text="aggregate panics (remap_defined_type: 'expected a defined type') when a type export that is an alias of a "
-              "primitive is merged onto the primitive itself and the contributor has another export mentioning the alias"),
     dict(property="C09", id="owner-import-bypasses-canonical-name", status="known",
          signature="remap_resource inserts the owning interface into `imports` under the interface's own id when that id is "
                    "not an import key, without looking at the semver track / name_redirects",
@@ -350,10 +339,7 @@ def track_of(name):
 
 
 ALLOWED = {
-    "nested-instance-not-united": {"upper-bound", "upper-bound-spec", "order-dependent-success", "fails-without-conflict",
-                                   "succeeds-despite-conflict", "merged-tree-not-union", "order-dependent-result"},
     "component-imports-united": {"upper-bound", "upper-bound-spec", "order-dependent-result"},
-    "remapped-defined-onto-primitive-panic": {"panic", "order-dependent-success", "fails-without-conflict"},
     "interface-id-under-two-import-names": {"order-dependent-result", "merged-tree-not-union", "export-order-not-first-seen",
                                             "order-dependent-success", "fails-without-conflict", "succeeds-despite-conflict"},
     "owner-import-bypasses-canonical-name": {"two-imports-on-one-track", "not-idempotent", "canonical-not-highest",
@@ -368,12 +354,10 @@ def signatures(case, impl, model):
     reqs = fi[0].split(";"); sc = mf[3].split(",")
     s = set()
     shared = shared_id_sig(cf, sc)
-    if nested_instance_sig(names, reqs, sc, any_pair=shared):
-        s.add("nested-instance-not-united")
+    # (nested_instance_sig / alias_prim_sig classified the two findings repaired by repository commits 0bf540d and
+    #  874f221; they suppress nothing any more: their witnesses are regression cases in corpus/C09/cases.txt)
     if component_sig(names, reqs, sc):
         s.add("component-imports-united")
-    if alias_prim_sig(cf):
-        s.add("remapped-defined-onto-primitive-panic")
     if owner_sig(cf):
         s.add("owner-import-bypasses-canonical-name")
     if shared:
